@@ -98,3 +98,8 @@ def abnormal_ok(case, om, oi):
     """A program that makes no progress (some loop iteration / jump cycle consumes no time) is outside
     C02's domain; the implementation does not return on it (known finding D8, reported under C03)."""
     return oi == "timeout" and "noprogress" in om
+
+
+def impl_skip(case, om):
+    """the model predicts that the call does not return (zero-time cycle, finding D8)"""
+    return "noprogress" in om
